@@ -32,3 +32,4 @@ INVARIANT Drift_FromStab
 INVARIANT Drift_Refusal
 INVARIANT Drift_Decompose
 INVARIANT WideEntropyOK
+INVARIANT GHZEntropyOK
